@@ -276,7 +276,7 @@ def work(item):
     try:
         {
             "exact": _w_exact, "dist": _w_dist, "sample": _w_sample, "wfsample": _w_wfsample, "probdist": _w_probdist,
-            "freq": _w_freq, "shot": _w_shot, "pipeline": _w_pipeline, "counts": _w_counts,
+            "freq": _w_freq, "shot": _w_shot, "pipeline": _w_pipeline, "counts": _w_counts, "batch": _w_batch,
         }[kind](res, p)
     except ST.Inconclusive as e:
         res.ob(1)
@@ -289,6 +289,37 @@ def work(item):
 
 def _cand(res, clause, what, p, w=None):
     res.candidate(clause, what, dict(p, clause=clause, values=w or {}), sub=clause)
+
+
+def batch_bad(widths, ones, n_samples):
+    """ground: a BATCH of circuits of different register widths, circuit i flipping the qubits ones[i] of |0..0>: result i must
+    be the shots of circuit i - tuples of length widths[i], all equal to that basis state (batch order is part of numbering:
+    position i of the result speaks about circuit i)"""
+    from orquestra.quantum.circuits import Circuit, X
+    from orquestra.quantum.runners.symbolic_simulator import SymbolicSimulator
+
+    circs = [Circuit([X(q) for q in qs], n_qubits=w) for w, qs in zip(widths, ones)]
+    for ns in (n_samples, [n_samples + i for i in range(len(circs))]):
+        out = SymbolicSimulator(seed=7).run_batch_and_measure(circs, ns)
+        if len(out) != len(circs):
+            return f"{len(out)} results for {len(circs)} circuits"
+        for i, (m, w, qs) in enumerate(zip(out, widths, ones)):
+            want = tuple(1 if q in qs else 0 for q in range(w))
+            want_n = ns if isinstance(ns, int) else ns[i]
+            if len(m.bitstrings) < want_n or any(tuple(b) != want for b in m.bitstrings):
+                return f"result {i} of a batch with widths {widths} (samples {ns}): shots {sorted(set(map(tuple, m.bitstrings)))[:3]} x{len(m.bitstrings)}, want {want_n} x {want}"
+    return None
+
+
+def _w_batch(res, p):
+    res.d["ground_instances"] += 1
+    res.d["instances"] -= 1
+    res.ob(1)
+    bad = batch_bad(p["widths"], p["ones"], p["n_samples"])
+    if bad:
+        _cand(res, "batch-result-numbering", f"{p['label']}: {bad}", p)
+    else:
+        res.ob(0, 1, "ground-structure")
 
 
 def _circuit(p):
@@ -772,6 +803,10 @@ def instances(tier, seed):
     for it in c10.instances(tier, seed):
         if it[0] == "stats" and it[1]["label"].startswith("wide register") and not it[1]["bessel"]:
             items.append(("shot", dict(it[1])))
+    # batches of circuits of different widths (order of the widths: ascending, descending, every 3-cycle, repeats)
+    for widths in ([1, 2, 3], [3, 2, 1], [3, 1, 2], [2, 3, 1], [2, 2, 1], [2, 1, 2, 1], [1, 3, 2], [4, 1, 3, 2], [2]):
+        ones = [[q for q in range(w) if (q + k) % 2 == 0] for k, w in enumerate(widths)]
+        items.append(("batch", {"widths": widths, "ones": ones, "n_samples": 5, "label": f"batch of basis-state circuits of widths {widths}"}))
     for n in (1, 2, 3):
         items.append(("counts", {"n": n, "label": f"count strings width {n}"}))
         for bits in itertools.product((0, 1), repeat=n):
@@ -824,6 +859,9 @@ def replay(data):
     vals = {k: float(v) for k, v in (inp.get("values") or {}).items()}
     p = {k: v for k, v in inp.items() if k not in ("clause", "values")}
     try:
+        if clause == "batch-result-numbering":
+            bad = batch_bad(p["widths"], p["ones"], p["n_samples"])
+            return bool(bad), bad or "ok"
         if clause == "pipeline-agreement":
             bad = pipeline_bad(p)
             return bool(bad), bad or "ok"
